@@ -6,16 +6,20 @@ import EAO.Model.State
 op `state_run`:
   request  {"op":"state_run",
             "version": {"rederive": bool, "scaledOwnGrid": bool}        (optional; default = `current`)
-            "assets": [ {"kind":"plain","p":P} | {"kind":"scaled","p":P,"base":P} | {"kind":"structured","p":P,"inner":[P..]} ],
+            "assets": [ TREE.. ],   TREE = {"kind":"plain","p":P} | {"kind":"scaled","p":P,"base":TREE}
+                                         | {"kind":"structured","p":P,"inner":[TREE..]} | {"kind":"linked","p":P,"inner":[TREE..]}
                         P = {"start": int|null, "stop": int|null, "freq": nat|null, "wacc": "p/q"}
+                        (a TREE without "kind" is read as P of a plain asset: the flat format of the first version)
             "grids": n                    (grid objects 0..n-1 are reported)
             "ops": [ [call, ...], ... ]   (one group per operation of the real code; the state is reported after each group)
-                        call = {"call":"setTimegrid","a":i,"g":k} | {"call":"setTimegridSub","a":i,"i":j,"g":k} | {"call":"setup","a":i,"g":k|null}
-                             | {"call":"setupSub","a":i,"i":j,"g":k|null} | {"call":"setupPortfolio","g":k|null}
+                        call = {"call":"setTimegrid","ad":[a,i,..],"g":k} | {"call":"setup","ad":[a,i,..],"g":k|null}
+                               (address: a = number of the asset in the portfolio, then the numbers of the wrapped assets down the tree;
+                                instead of "ad": "a":a for a top-level asset; "setTimegridSub" / "setupSub" with "a", "i" = address [a,i])
+                             | {"call":"setupPortfolio","g":k|null}
                              | {"call":"setupSplit","g":k,"tmp":[k1,..]} | {"call":"dcf","a":i} | {"call":"fillLevel","a":i}
                              | {"call":"makeSlp","g":k,"t":int} }
   response {"steps": [ {"results": [R..], "pure": [R..], "pf": k|null,
-                        "assets": [{"grid":k|null, "sub":[{"grid":k|null,"start":int|null,"stop":int|null}..]}..],
+                        "assets": [OBJ..],   OBJ = {"grid":k|null, "start":int|null, "stop":int|null, "sub":[OBJ..]}   (the tree of the asset)
                         "grids": [{"restricted":[start|null, stop|null, freq|null]|null, "disc":"p/q"|null}..]} .. ]}
             R = {"ok":[{"grid":k,"restricted":..,"disc":..}..]} | {"err":"noGrid"};  "results" is `(setupSt v env s call).2`,
             "pure" is `setupPure env (ownPtrs s) call` for the state BEFORE the call (theorem `setup_pure`: equal for `current`).
@@ -36,19 +40,31 @@ def getStParams (j : Json) : Except String Params := do
   pure { start := ← field j "start" getOptInt, stop := ← field j "stop" getOptInt,
          freq := ← field j "freq" getOptNat, wacc := ← field j "wacc" getRat }
 
-def getStAsset (j : Json) : Except String State.Asset := do
-  match (← field j "kind" Json.getStr?) with
-  | "plain" => pure (.plain (← field j "p" getStParams))
-  | "scaled" => pure (.scaled (← field j "p" getStParams) (← field j "base" getStParams))
-  | "structured" => pure (.structured (← field j "p" getStParams) (← field j "inner" (getList getStParams)))
-  | s => throw s!"bad asset kind {s}"
+partial def getStAsset (j : Json) : Except String State.Asset := do
+  match j.getObjVal? "kind" with
+  | .error _ => pure (.plain (← getStParams j))
+  | .ok k =>
+    match (← k.getStr?) with
+    | "plain" => pure (.plain (← field j "p" getStParams))
+    | "scaled" => pure (.scaled (← field j "p" getStParams) (← field j "base" getStAsset))
+    | "structured" => pure (.structured (← field j "p" getStParams) false (← field j "inner" (getList getStAsset)))
+    | "linked" => pure (.structured (← field j "p" getStParams) true (← field j "inner" (getList getStAsset)))
+    | s => throw s!"bad asset kind {s}"
+
+/-- address of a call: "ad", or "a" (top-level), or "a" and "i" (the `Sub` calls of the flat format) -/
+def getAddr (j : Json) (sub : Bool) : Except String Addr := do
+  match j.getObjVal? "ad" with
+  | .ok v => getNats v
+  | .error _ =>
+    let a ← field j "a" Json.getNat?
+    if sub then pure [a, ← field j "i" Json.getNat?] else pure [a]
 
 def getStCall (j : Json) : Except String Call := do
   match (← field j "call" Json.getStr?) with
-  | "setTimegrid" => pure (.setTimegrid (← field j "a" Json.getNat?) (← field j "g" Json.getNat?))
-  | "setTimegridSub" => pure (.setTimegridSub (← field j "a" Json.getNat?) (← field j "i" Json.getNat?) (← field j "g" Json.getNat?))
-  | "setup" => pure (.setup (← field j "a" Json.getNat?) (← fieldOptNat j "g"))
-  | "setupSub" => pure (.setupSub (← field j "a" Json.getNat?) (← field j "i" Json.getNat?) (← fieldOptNat j "g"))
+  | "setTimegrid" => pure (.setTimegrid (← getAddr j false) (← field j "g" Json.getNat?))
+  | "setTimegridSub" => pure (.setTimegrid (← getAddr j true) (← field j "g" Json.getNat?))
+  | "setup" => pure (.setup (← getAddr j false) (← fieldOptNat j "g"))
+  | "setupSub" => pure (.setup (← getAddr j true) (← fieldOptNat j "g"))
   | "setupPortfolio" => pure (.setupPortfolio (← fieldOptNat j "g"))
   | "setupSplit" => pure (.setupSplit (← field j "g" Json.getNat?) (← field j "tmp" getNats))
   | "dcf" => pure (.dcf (← field j "a" Json.getNat?))
@@ -67,13 +83,15 @@ def jResult : State.Result → Json
   | .ok us => Json.mkObj [("ok", jList jUsed us)]
   | .error .noGrid => Json.mkObj [("err", Json.str "noGrid")]
 
+/-- the attributes of every object of the tree `x` living at address `ad` -/
+partial def jObj (O : Objs) (x : State.Asset) (ad : Addr) : Json :=
+  let o := O ad
+  Json.mkObj [("grid", jOpt jNat o.grid), ("start", jOpt jInt o.start), ("stop", jOpt jInt o.stop),
+    ("sub", Json.arr ((List.range x.subs.length).zip x.subs |>.map fun ic => jObj O ic.2 (ad ++ [ic.1])).toArray)]
+
 def jState (env : Env) (nGrids : Nat) (s : PyState) : List (String × Json) :=
   [("pf", jOpt jNat s.pf),
-   ("assets", jList (fun a =>
-      let st := s.assets a
-      Json.mkObj [("grid", jOpt jNat st.grid),
-        ("sub", jList (fun (b : SubSt) => Json.mkObj [("grid", jOpt jNat b.grid), ("start", jOpt jInt b.start), ("stop", jOpt jInt b.stop)]) st.sub)])
-      (List.range env.length)),
+   ("assets", jList (fun a => jObj s.objs (env.asset a) [a]) (List.range env.length)),
    ("grids", jList (fun g => Json.mkObj [("restricted", jOpt jSlot (s.grids g).restricted), ("disc", jOpt jRat (s.grids g).disc)])
       (List.range nGrids))]
 
